@@ -10,7 +10,7 @@ open Scaleuniv
 let hash = "arr(32,u8)"
 let sigd = "arr(64,u8)"
 let digestdata = "st(_:arr(4,u8),_:bytes)"
-let digestitem = "enum(D;4:" ^ digestdata ^ ",5:" ^ digestdata ^ ",6:" ^ digestdata ^ ",8:st())"
+let digestitem = "enum(D;0:sl(u8),4:" ^ digestdata ^ ",5:" ^ digestdata ^ ",6:" ^ digestdata ^ ",8:st())"
 let digest = "sl(" ^ digestitem ^ ")"
 let header = "st(_:" ^ hash ^ ",_:uint,_:" ^ hash ^ ",_:" ^ hash ^ ",_:" ^ digest ^ ")"
 let pair = "st(_:bytes,_:bytes)"
@@ -129,7 +129,8 @@ let check inp obs =
         | ["panic"] -> (Some IPanic, "panic", "s", "t")
         | _ -> (None, obs, "?", "?")) in
     let prop = (match impl with Some x -> c33_prop x | None -> false) in
-    let hostile = fst bk in
+    (* the body entries are copied once more (BytesArrayToExtrinsics): factor 2, as in Model.bytes_alloc *)
+    let hostile = n_lt (alloc_budget all_bytes) (N.mul (n_of_int 2) cost) in
     { prop_ok = prop; model_eq = (model_core = obs_core) && bucket_ok bk a tm;
       nontrivial = (blocks <> []); finding = (if prop then "-" else if hostile then "bytes-alloc" else "-");
       tags = "bresp," ^ outcome_tag res;
